@@ -158,6 +158,39 @@ BUILT["C19"] = (
     "Junk cannot spell the steering mnemonics or start with '~' (statement's exclusion).",
 )
 
+BUILT["C13"] = (
+    "model_checking",
+    "explicit-state BFS over operation histories on real SectionItems (directly and through LASFile.curves) with a lock-step list of original mnemonics; six invariants per state",
+    "Every history up to depth 3 (quick) / 4 (thorough) of append, insert, delete by index/key, set_item and rename + "
+    "assign_duplicate_suffixes over the names {A, a, B, blank, 'A:1', 'A:2', UNKNOWN} from seven roots (empty, "
+    "case-insensitive, LASFile.curves, sections read with each mnemonic_case) is executed on the real object; in every "
+    "state: distinct session names, resolution by item/attribute/LASFile access to the item's own object, UNKNOWN for "
+    "blanks, :1..:n numbering after insertions with nothing else renamed, originals untouched, and for file-safe "
+    "states a write->read round trip reproducing originals and session names. The literal-suffix collision (RC11) is "
+    "a recorded known finding.",
+    "Stale suffixes after deletions are allowed (statement only prescribes numbering after insertions).",
+)
+BUILT["C15"] = (
+    "model_checking",
+    "explicit-state exploration of sections built by operation histories; in every distinct state every probe key is tried through every access path against a first-match reference",
+    "In each of the states reachable by histories of depth <= 4 (quick) / 6 (thorough) from four roots, 14 probe keys "
+    "(present, absent, other case, blank, UNKNOWN, integer-like text, suffix forms, list-method names) go through "
+    "membership, item access, attribute access, get(), get(add=True), value assignment and deletion, plus integer "
+    "keys and slices; each must agree with 'first item whose session mnemonic equals the key under the section's "
+    "comparison', raise KeyError when absent, and change exactly what the statement says.",
+    "Attribute access only for names Python routes to __getattr__.",
+)
+BUILT["C17"] = (
+    "exploration",
+    "exhaustive enumeration of objects (corpus, generated, mutations, all short-history section states) x copiers (pickle protocols 0-5, deepcopy) x granularity (LASFile, section, item) with strict canonical comparison, write() comparison and two-way independence mutations",
+    "Every example file that reads, the generated family and its mutations (both mnemonic cases) and every section "
+    "state reachable by histories of depth <= 2 (thorough 3) from C13's roots are copied with pickle protocols 0..5 and "
+    "copy.deepcopy at LASFile, section and item level: strict canonical equality incl. session and original mnemonics, "
+    "dtypes, index_unit and comparison mode, byte-identical write(), original untouched by copying, and four mutations "
+    "applied to the copy (resp. the original) leave the other object unchanged.",
+    "copy.copy is outside the statement.",
+)
+
 PENDING_REASON = "check not built yet in this round (design in DESIGN.md section 3); nothing is claimed for it"
 
 
